@@ -212,7 +212,7 @@ class World:
         self.last_loaded = None
         self.deferred = None  # a pending Diverged (see ops.execute)
         self.shared_bytes = {}  # key -> bytearray owned by the caller (harness), passed to constructors
-        self.aux_refs = {}  # (container label, name) -> value object handed out by the last read
+        self.aux_refs = {}  # id(model table) -> (model table, value object handed out by the last read)
         self.immutable_contents = set()  # intervals whose contents the caller replaced by an immutable bytes object
         self.queue = []  # operations scheduled by the generator (e.g. heal before save)
 
